@@ -2,7 +2,9 @@ import JmesVerif.Model.Lexer
 /-
 The dispatch of `Lexer::tokenize` (`match ch { … }` in lexer.rs) as a TABLE: which action each first character triggers.
 `Generated/LexTable.lean` holds the table re-extracted from the source on every run; `lexArmsDoc` below is the hand-written copy
-the lexer model is proved to follow (`Lemmas/LexTable.lean`: `lexOne_eq_table`); `Props/C03` proves the two tables equal (`decide`).
+the lexer model is proved to follow (`Lemmas/LexTable.lean`: `lexOne_eq_table`); `Props/C03` proves (`decide`) that the two tables have
+the same (range, action) entries up to order and grouping, the ranges being pairwise disjoint — hence the same dispatch
+(`Lemmas/LexTablePerm.lean`: `actOf_perm_of_flat`).
 -/
 namespace JmesVerif
 
